@@ -130,4 +130,65 @@ example : Rec.WF ⟨7, [1, 2, 3]⟩ ∧ (6 : Nat) < (encode ⟨7, [1, 2, 3]⟩).
 /-- the repaired shape of the store opening is present: files left empty by a kill during their creation are removed -/
 theorem repaired_shape_present : Gen.badgerRemovesEmptyLogFiles = true := by decide
 
+/-! ### Single-key writes of a version are one store transaction
+
+A versioned key has, per version, a value entry and a deletion marker; a read takes the value if there is one,
+nothing if the marker is there, and otherwise what the ancestors give.  `BadgerDB.Put` writes the value and clears
+the marker, `BadgerDB.Delete` removes the value and sets the marker.  Whether each pair is one transaction is
+regenerated from storage/badger/badger.go. -/
+
+structure Slot where
+  val  : Option Nat
+  tomb : Bool
+deriving DecidableEq, Repr
+
+def Slot.read (anc : Option Nat) (s : Slot) : Option Nat :=
+  match s.val with
+  | some v => some v
+  | none => if s.tomb then none else anc
+
+inductive Step | setVal (v : Nat) | clearVal | setTomb | clearTomb
+
+def Step.apply : Step → Slot → Slot
+  | .setVal v, s => { s with val := some v }
+  | .clearVal, s => { s with val := none }
+  | .setTomb, s => { s with tomb := true }
+  | .clearTomb, s => { s with tomb := false }
+
+def putSteps (v : Nat) : List Step := [.setVal v, .clearTomb]
+def delSteps : List Step := [.clearVal, .setTomb]
+
+/-- the store after a crash (or as seen by another request) once `k` of the steps are done: with one transaction
+    nothing is visible before all of them are -/
+def partialRun (singleTxn : Bool) (steps : List Step) (k : Nat) (s : Slot) : Slot :=
+  if singleTxn then (if steps.length ≤ k then steps.foldl (fun s st => st.apply s) s else s)
+  else (steps.take k).foldl (fun s st => st.apply s) s
+
+/-- at every crash point inside a single-key delete or put of a version, a read at that version gives what it
+    gave before the request or what it gives after it — for every prior content of the slot and every ancestor
+    value -/
+theorem single_key_write_atomic (anc : Option Nat) (s : Slot) (k v : Nat) :
+    ((partialRun Gen.badgerPutDeleteSingleTxn delSteps k s).read anc = s.read anc ∨
+      (partialRun Gen.badgerPutDeleteSingleTxn delSteps k s).read anc = none) ∧
+    ((partialRun Gen.badgerPutDeleteSingleTxn (putSteps v) k s).read anc = s.read anc ∨
+      (partialRun Gen.badgerPutDeleteSingleTxn (putSteps v) k s).read anc = some v) := by
+  have hg : Gen.badgerPutDeleteSingleTxn = true := by decide
+  rw [hg]
+  constructor
+  · by_cases h : delSteps.length ≤ k
+    · right
+      have h2 : 2 ≤ k := h
+      simp [partialRun, delSteps, Step.apply, Slot.read, h2]
+    · left; simp [partialRun, h]
+  · by_cases h : (putSteps v).length ≤ k
+    · right
+      have h2 : 2 ≤ k := h
+      simp [partialRun, putSteps, Step.apply, Slot.read, h2]
+    · left; simp [partialRun, h]
+
+/-- with two transactions a crash (or another request) between them shows the ancestor's value: neither the value
+    before the delete nor "deleted" (seeded changes C04-6, C11-5) -/
+example : (partialRun false delSteps 1 ⟨some 1, false⟩).read (some 9) = some 9 ∧
+    (⟨some 1, false⟩ : Slot).read (some 9) = some 1 := by decide
+
 end Dvid.Props.C04
